@@ -33,8 +33,10 @@ type rig struct {
 	msize  uint32
 }
 
-func newRig(rendezvous bool, msize uint32) (*rig, error) {
-	a, b := memconn.NewPair(memconn.Options{Rendezvous: rendezvous})
+func newRig(rendezvous bool, msize uint32) (*rig, error) { return newRigOpt(rendezvous, false, msize) }
+
+func newRigOpt(rendezvous, honorDeadlines bool, msize uint32) (*rig, error) {
+	a, b := memconn.NewPair(memconn.Options{Rendezvous: rendezvous, HonorDeadlines: honorDeadlines})
 	ctx, cancel := context.WithCancel(context.Background())
 	r := &rig{cli: a, srvEnd: b, ctx: ctx, cancel: cancel, msize: msize}
 	r.srv = peer.New(b)
@@ -107,6 +109,11 @@ type pending struct {
 // start issues the call on its own goroutine.
 func (r *rig) start(kind string, marker uint32) *pending {
 	ctx, cancel := context.WithCancel(context.Background())
+	return r.startCtx(kind, marker, ctx, cancel)
+}
+
+// startCtx issues the call under the given context.
+func (r *rig) startCtx(kind string, marker uint32, ctx context.Context, cancel context.CancelFunc) *pending {
 	p := &pending{kind: kind, marker: marker, cancel: cancel, done: make(chan callResult, 1)}
 	s := r.sess
 	fid := p9p.Fid(marker)
